@@ -124,16 +124,47 @@ def run(ck, prog, ctx):
         mx = [t for _, t in fm.calls() if t.callee.method == "min"]
         for t in mx:
             ck.violation("SELECT", "fun_sim_max/direction", "funSimMax takes the SMALLER of the two means", where=fm.where(t.line))
+    # which private field holds the number of rows / of columns is read off the constructor: the field(s) that `Matrix::new(rows, cols, ..)` fills
+    # from its first / second parameter (through a nested private struct as well)
+    mn0 = prog.body("matrix::Matrix::<'a, T>::new")
+    dim_role = {}
+    if mn0 is not None:
+        for fb_ in [mn0] + [prog.bodies[x] for x in prog.reachable_bodies([mn0.id]) if x in prog.bodies and prog.bodies[x].file == mn0.file and x != mn0.id]:
+            for pos, st in fb_.stmts():
+                if st.k == "assign" and st.rv["k"] == "agg" and st.rv.get("agg") == "adt" and st.rv.get("fields"):
+                    for f_, o_ in zip(st.rv["fields"], st.rv["ops"]):
+                        ps_ = params_of(pv.of_operand(fb_, o_), mn0.id) if fb_ is mn0 else set()
+                        if fb_ is not mn0:
+                            # a helper constructor (`Shape::new(rows, cols)`): its parameters are mapped back through the call in Matrix::new
+                            hp = params_of(pv.of_operand(fb_, o_), fb_.id)
+                            for _, ct in mn0.calls():
+                                if ct.callee.res == fb_.id:
+                                    for p_ in hp:
+                                        if 1 <= p_ <= len(ct.args):
+                                            ps_ |= params_of(pv.of_operand(mn0, ct.args[p_ - 1]), mn0.id)
+                        if ps_ == {1}:
+                            dim_role[(st.rv["adt"], f_)] = "rows"
+                        elif ps_ == {2}:
+                            dim_role[(st.rv["adt"], f_)] = "cols"
+
+    def dim_roles(atoms):
+        return {dim_role[(a[1], a[2])] for a in atoms if a[0] == "field" and (a[1], a[2]) in dim_role}
     dm = prog.body("matrix::Matrix::<'a, T>::dim")
     if ck.anchor("ROLE", "Matrix::dim", dm):
-        a0 = field_names(pv.of_return(dm, (("f", "0", "tuple"),)), "Matrix")
-        a1 = field_names(pv.of_return(dm, (("f", "1", "tuple"),)), "Matrix")
-        ck.ob("ROLE", "matrix/dim", a0 == {"rows"} and a1 == {"cols"}, "Matrix::dim returns (%s, %s) (expected (rows, cols))" % (sorted(a0), sorted(a1)), where=dm.where())
+        a0 = dim_roles(pv.of_return(dm, (("f", "0", "tuple"),)))
+        a1 = dim_roles(pv.of_return(dm, (("f", "1", "tuple"),)))
+        if not dim_role or not (a0 and a1):
+            ck.undecided("ROLE", "matrix/dim", "the fields that hold the two dimensions are not recognised (constructor fills %s)" % sorted(dim_role.values()), where=dm.where())
+        else:
+            ck.ob("ROLE", "matrix/dim", a0 == {"rows"} and a1 == {"cols"}, "Matrix::dim returns (%s, %s) (expected (rows, cols)); the constructor keeps rows / cols in %s" % (sorted(a0), sorted(a1), sorted("%s.%s" % (k[0].rsplit("::", 1)[-1], k[1]) for k in dim_role)), where=dm.where())
     df = prog.body(SC + "::dim_f32")
     if df is not None:
-        a0 = field_names(pv.of_return(df, (("f", "0", "tuple"),)), "Matrix") & {"rows", "cols"}
-        a1 = field_names(pv.of_return(df, (("f", "1", "tuple"),)), "Matrix") & {"rows", "cols"}
-        ck.ob("ROLE", "combiner/dim_f32", a0 == {"rows"} and a1 == {"cols"}, "dim_f32 returns (%s, %s) (expected (rows, cols))" % (sorted(a0), sorted(a1)), where=df.where())
+        a0 = dim_roles(pv.of_return(df, (("f", "0", "tuple"),)))
+        a1 = dim_roles(pv.of_return(df, (("f", "1", "tuple"),)))
+        if not (a0 and a1):
+            ck.undecided("ROLE", "combiner/dim_f32", "dim_f32 does not visibly return the matrix dimensions (helper?)", where=df.where())
+        else:
+            ck.ob("ROLE", "combiner/dim_f32", a0 == {"rows"} and a1 == {"cols"}, "dim_f32 returns (%s, %s) (expected (rows, cols))" % (sorted(a0), sorted(a1)), where=df.where())
 
     # ------------------------------------------------------------------ SELECT + FIELD: row_maxes / col_maxes
     for name, acc in (("row_maxes", "rows"), ("col_maxes", "cols")):
@@ -228,10 +259,11 @@ def run(ck, prog, ctx):
     if mn is not None:
         for pos, st in mn.stmts():
             if st.k == "assign" and st.rv["k"] == "agg" and st.rv.get("adt", "").endswith("Matrix"):
-                fr = st.rv["fields"]
-                pr = params_of(pv.of_operand(mn, st.rv["ops"][fr.index("rows")]), mn.id)
-                pc = params_of(pv.of_operand(mn, st.rv["ops"][fr.index("cols")]), mn.id)
-                ck.ob("ROLE", "matrix/new-fields", pr == {1} and pc == {2}, "Matrix::new stores (rows<-arg%s, cols<-arg%s)" % (sorted(pr), sorted(pc)), where=mn.where(st.line))
+                roles_here = sorted(set(dim_role.values()))
+                if roles_here != ["cols", "rows"]:
+                    ck.undecided("ROLE", "matrix/new-fields", "Matrix::new does not keep its two dimension arguments in two separate fields (found %s)" % roles_here, where=mn.where(st.line))
+                else:
+                    ck.ob("ROLE", "matrix/new-fields", True, "Matrix::new keeps its first argument (rows) and its second (cols) apart: %s" % sorted("%s.%s<-%s" % (k[0].rsplit("::", 1)[-1], k[1], v) for k, v in dim_role.items()), where=mn.where(st.line))
 
     if gs is not None:
         check_required_steps(ck, "ROLE", prog, gs, [("pairwise similarity of every (a, b)", lambda t: t.callee.trait == "similarity::Similarity" and t.callee.method == "calculate"),
@@ -363,6 +395,27 @@ def run(ck, prog, ctx):
             c_, s_ = params_of(pvw.of_operand(hs, t.args[0]), hs.id), params_of(pvw.of_operand(hs, t.args[1]), hs.id)
             ck.ob("ROLE", "HpoSet::similarity/strategies", c_ == {4} and s_ == {3}, "GroupSimilarity::new receives (combiner, similarity) from the parameters %s, %s (expected the `combiner` and `similarity` arguments)" % (sorted(c_), sorted(s_)), where=hs.where(t.line))
 
+    # row maxima and column maxima are two lists of DIFFERENT length (|A| and |B|): zipping them drops the tail of the longer one
+    ck.rule("ZIP", "no `zip` pairs the row maxima with the column maxima (or rows with columns): the shorter side would cut the longer one off")
+    n_zip = 0
+    for b_ in prog.production():
+        if b_.file != "src/similarity.rs":
+            continue
+        for bi, t in b_.calls():
+            if t.callee.method != "zip" or len(t.args) != 2:
+                continue
+            n_zip += 1
+            sides = []
+            for a in t.args:
+                at = pv.of_operand(b_, a)
+                sides.append(frozenset(x[1].rsplit("::", 1)[-1] for x in at if x[0] == "call" and x[1].rsplit("::", 1)[-1] in ("row_maxes", "col_maxes", "rows", "cols")))
+            r0, r1 = sides
+            cross = (r0 & {"row_maxes", "rows"} and r1 & {"col_maxes", "cols"} and not (r0 & {"col_maxes", "cols"}) and not (r1 & {"row_maxes", "rows"})) or \
+                    (r1 & {"row_maxes", "rows"} and r0 & {"col_maxes", "cols"} and not (r1 & {"col_maxes", "cols"}) and not (r0 & {"row_maxes", "rows"}))
+            root_ = prog.bodies[b_.root] if b_.kind == "Closure" and b_.root in prog.bodies else b_
+            ck.ob("ZIP", "zip/%s/%d" % (root_.short, n_zip), not cross, "%s zips %s with %s%s" % (root_.short, sorted(r0) or "?", sorted(r1) or "?", "" if not cross else ": one list has |A| entries, the other |B| - for sets of different size the longer list loses its tail, so its maxima never reach the sum"), where=b_.where(t.line))
+    ck.extra["zip calls examined in similarity.rs"] = n_zip
+
     # the score travels from the combiner to the caller unchanged: combine -> SimilarityCombiner::calculate -> GroupSimilarity::calculate -> HpoSet::similarity
     ck.rule("ASIS", "each layer between the combiner formula and the public entry point returns the inner result as it is (no clamp / rounding / rescaling on the way)")
     from engines import steps_after_call
@@ -388,6 +441,8 @@ def run(ck, prog, ctx):
     ck.rule("GUARD", "numeric conversion helpers are exact or fail (DESIGN 3.5)")
     from props.shared import check_exact_conversion
     check_exact_conversion(ck, "GUARD", prog, "similarity::usize_to_f32", "the matrix dimensions")
+    from props.shared import check_conversion_range
+    check_conversion_range(ck, "GUARD", prog, "similarity::usize_to_f32", 16, "matrix dimensions up to u16 are accepted (the reviewed bound)")
     from engines import check_ctors
     check_ctors(ck, "CTOR", prog, r"^src/(matrix|similarity)\.rs$", floor=8)
     # container methods of the wrapper types answer with the same-named method of one inner collection
